@@ -128,6 +128,33 @@ func genRouteNode(t *rapid.T, lss []map[string]string, parent timers, depth int,
 		} else {
 			r.Active = []string{iv}
 		}
+		// several names on one route: the other interval joins the same list (before or after) or the other list
+		if len(intervals) > 1 {
+			other := intervals[0].Name
+			if other == iv {
+				other = intervals[1].Name
+			}
+			switch rapid.IntRange(0, 5).Draw(t, "ti2nd") {
+			case 0:
+				if len(r.Mute) > 0 {
+					r.Mute = append(r.Mute, other)
+				} else {
+					r.Active = append(r.Active, other)
+				}
+			case 1:
+				if len(r.Mute) > 0 {
+					r.Mute = append([]string{other}, r.Mute...)
+				} else {
+					r.Active = append([]string{other}, r.Active...)
+				}
+			case 2:
+				if len(r.Mute) > 0 {
+					r.Active = []string{other}
+				} else {
+					r.Mute = []string{other}
+				}
+			}
+		}
 	}
 	if depth > 0 {
 		nc := rapid.IntRange(0, 2).Draw(t, "ngc")
